@@ -3,7 +3,7 @@ CONSTANTS
   BinBytes = {0, 171, 255}
   BinMax = 5
   HexChars = {48, 102, 70, 103, 32}
-  HexMax = 6
+  HexMax = 5
 INVARIANTS BinSized HexSized RoundTrip PairsBound NFits
 CONSTRAINT Emit
 CHECK_DEADLOCK FALSE
